@@ -2,7 +2,7 @@
    partition theorem (applied to every column) with the join theorems. *)
 From Coq Require Import ZArith List Bool Lia ZifyBool ZifyNat Permutation Sorted.
 From Verif Require Import Common.ListIdx Common.PyList Model.C09.
-From Verif Require Import Proofs.C09_split Proofs.C09_join.
+From Verif Require Import Proofs.C09_split Proofs.C09_join Proofs.C09_more.
 Import ListNotations.
 Open Scope Z_scope.
 Ltac Zify.zify_post_hook ::= Z.div_mod_to_equations.
@@ -21,11 +21,11 @@ Proof.
   intros [<-|H]; [now left|right; eauto].
 Qed.
 
-Definition sel (n k : Z) (ii : nat) : list Z -> list Z :=
-  select_from 0 (part_pred n k false false (Z.of_nat ii)).
+Definition sel (n k : Z) (s0 s1 : bool) (ii : nat) : list Z -> list Z :=
+  select_from 0 (part_pred n k s0 s1 (Z.of_nat ii)).
 
-Lemma split_meas_In m n k p :
-  In p (split_meas m n k) -> exists ii, p = part_of m (sel n k ii).
+Lemma split_meas_In m n k s0 s1 p :
+  In p (split_meas m n k s0 s1) -> exists ii, p = part_of m (sel n k s0 s1 ii).
 Proof.
   unfold split_meas. intros H. apply in_map_iff in H.
   destruct H as [ii [<- _]]. now exists ii.
@@ -39,8 +39,9 @@ Proof. reflexivity. Qed.
 
 (* all parts carry the same date, time and run index: the (stable) sort
    leaves them in the given order *)
-Lemma sorted_split_id m n k :
-  sorted_gen leb_num (split_meas m n k) = tag_from 0 (split_meas m n k).
+Lemma sorted_split_id m n k s0 s1 :
+  sorted_gen leb_num (split_meas m n k s0 s1)
+  = tag_from 0 (split_meas m n k s0 s1).
 Proof.
   unfold sorted_gen. apply py_sorted_id. apply all_related_sorted.
   intros a b Ha Hb. apply tag_from_In in Ha. apply tag_from_In in Hb.
@@ -61,7 +62,7 @@ Qed.
 
 Lemma wf_part m s : wf_meas m -> wf_meas (part_of m s).
 Proof.
-  unfold wf_meas. intros [H1 [H2 [H3 H4]]].
+  unfold wf_meas. intros [H1 [H2 [H3 [H4 H5]]]].
   cbn [part_of m_innate m_avail m_rate]. repeat split; auto.
   intros f Hf. rewrite lookup_col_part. specialize (H3 f Hf).
   destruct (lookup_col f (m_cols m)); [discriminate|contradiction].
@@ -73,26 +74,33 @@ Proof.
   destruct (lookup_col f (m_cols m)); cbn [option_map]; auto.
 Qed.
 
-(* the parts' columns, one after the other, are the column: the split
-   partition theorem at work on every feature *)
-Lemma spec_plain_split f m n k c :
-  0 < k -> lookup_col f (m_cols m) = Some c -> Z.of_nat (length c) = n ->
-  spec_plain f (split_meas m n k) = c.
+(* the parts' columns are the windows of the column: the split theorems at
+   work on every feature *)
+Lemma cols_of_parts f m n k s0 s1 c :
+  lookup_col f (m_cols m) = Some c -> Z.of_nat (length c) = n ->
+  map (getcol f) (split_meas m n k s0 s1) = split_parts c k s0 s1.
 Proof.
-  intros Hk Hl Hn. unfold spec_plain, split_meas. rewrite map_map.
+  intros Hl Hn. unfold split_meas, split_parts. rewrite map_map, Hn.
   assert (Hg : getcol f m = c) by (unfold getcol; now rewrite Hl).
-  transitivity (concat (split_parts c k false false)).
-  - unfold split_parts. rewrite Hn. f_equal. apply map_ext. intros ii.
-    rewrite getcol_part; [now rewrite Hg|reflexivity].
-  - now apply split_partition.
+  apply map_ext. intros ii. rewrite getcol_part; [now rewrite Hg|reflexivity].
 Qed.
 
-Lemma split_meas_nonempty m n k : 0 < k -> 0 < n -> split_meas m n k <> [].
+Lemma spec_plain_split f m n k s0 s1 c :
+  0 < k -> lookup_col f (m_cols m) = Some c -> Z.of_nat (length c) = n ->
+  spec_plain f (split_meas m n k s0 s1) = slice c (b2z s0) (n - b2z s1).
 Proof.
-  intros Hk Hn. unfold split_meas.
+  intros Hk Hl Hn. unfold spec_plain.
+  rewrite (cols_of_parts f m n k s0 s1 c Hl Hn).
+  rewrite split_parts_concat by assumption. now rewrite Hn.
+Qed.
+
+(* more events than the split size: at least two parts (join needs two) *)
+Lemma split_meas_two m n k s0 s1 :
+  0 < k -> k < n -> (2 <= length (split_meas m n k s0 s1))%nat.
+Proof.
+  intros Hk Hn. unfold split_meas. rewrite map_length, seq_length.
   destruct (num_files_covers n k) as [H0 [H1 _]]; [lia|lia|].
-  assert (1 <= num_files n k) by nia.
-  destruct (Z.to_nat (num_files n k)) eqn:E; [lia|]. discriminate.
+  assert (2 <= num_files n k) by nia. lia.
 Qed.
 
 Lemma map_add0 l : map (Z.add 0) l = l.
@@ -105,36 +113,45 @@ Proof.
   apply map_ext_in. intros p Hp. rewrite (H p Hp). apply map_add0.
 Qed.
 
-Theorem join_of_split m n k :
-  0 < k -> 0 < n -> wf_meas m ->
+(* Joining the parts of a split, given in order: for every N, every split
+   size 0 < k < N (at least two parts) and whether or not the boundary events
+   were skipped (s0, s1), the join succeeds, exports the innate features, and
+   every column is the original column without the skipped boundary events;
+   index is 1..N', index_online follows the block rule on the same windows. *)
+Theorem join_of_split m n k s0 s1 :
+  0 < k -> k < n -> wf_meas m ->
   (forall f c, lookup_col f (m_cols m) = Some c -> Z.of_nat (length c) = n) ->
   exists j,
-    join_fixed (split_meas m n k) = Ok j
+    join_fixed (split_meas m n k s0 s1) = Ok j
     /\ j_feats j = py_sorted Z.leb (m_innate m)
-    /\ forall f, In f (m_innate m) ->
-         (kind f <> 3 -> kind f <> 4 ->
-          lookup_col f (j_cols j) = lookup_col f (m_cols m))
+    /\ forall f c, In f (m_innate m) -> lookup_col f (m_cols m) = Some c ->
+         let kept := slice c (b2z s0) (n - b2z s1) in
+         (kind f <> 3 -> kind f <> 4 -> lookup_col f (j_cols j) = Some kept)
          /\ (kind f = 4 ->
              lookup_col f (j_cols j)
-             = Some (map (fun i => 1 + Z.of_nat i) (seq 0 (Z.to_nat n)))).
+             = Some (map (fun i => 1 + Z.of_nat i) (seq 0 (length kept))))
+         /\ (kind f = 3 ->
+             lookup_col f (j_cols j)
+             = Some (spec_ido_blocks (split_parts c k s0 s1))).
 Proof.
   intros Hk Hn Hwf Hlen.
-  set (parts := split_meas m n k).
-  assert (Hparts : forall p, In p parts -> exists ii, p = part_of m (sel n k ii))
+  set (parts := split_meas m n k s0 s1).
+  assert (Hparts : forall p, In p parts ->
+                             exists ii, p = part_of m (sel n k s0 s1 ii))
     by (intros p Hp; now apply split_meas_In).
   assert (Hwfp : Forall wf_meas parts).
   { apply Forall_forall. intros p Hp. destruct (Hparts p Hp) as [ii ->].
     now apply wf_part. }
-  destruct (join_fixed_total parts (split_meas_nonempty m n k Hk Hn) Hwfp)
+  destruct (join_fixed_total parts (split_meas_two m n k s0 s1 Hk Hn) Hwfp)
     as [j Hj].
   exists j. split; [exact Hj|].
   assert (Hsorted : map snd (sorted_gen leb_num parts) = parts).
   { unfold parts. rewrite sorted_split_id. apply tag_from_snd. }
-  destruct Hwf as [Hnd [Hia [Hcols Hrate]]].
+  destruct Hwf as [Hnd [Hia [Hcols [Hrate Hdt]]]].
   (* features *)
   destruct (join_features_common _ _ Hj) as [m0 [rest [Hs Hf]]].
   rewrite Hsorted in Hs.
-  assert (Hm0 : exists ii, m0 = part_of m (sel n k ii))
+  assert (Hm0 : exists ii, m0 = part_of m (sel n k s0 s1 ii))
     by (apply Hparts; rewrite Hs; now left).
   destruct Hm0 as [i0 Hm0].
   assert (Hfeats : j_feats j = py_sorted Z.leb (m_innate m)).
@@ -148,18 +165,16 @@ Proof.
   (* columns *)
   destruct (join_columns _ _ Hj) as [m0' [rest' [Hs' Hc]]].
   rewrite Hsorted, Hs in Hs'. injection Hs' as <- <-.
-  intros f Hfin.
+  intros f c Hfin El kept.
   assert (Hfj : In f (j_feats j)).
   { rewrite Hfeats. eapply Permutation_in; [symmetry; apply py_sorted_perm|exact Hfin]. }
   destruct (Hc f Hfj) as [Ht [Hfr [Hix Hpl]]].
-  destruct (lookup_col f (m_cols m)) as [c|] eqn:El;
-    [|exfalso; apply (Hcols f (Hia f Hfin)); exact El].
-  assert (Hplain : spec_plain f (m0 :: rest) = c).
+  assert (Hplain : spec_plain f (m0 :: rest) = kept).
   { rewrite <- Hs. apply spec_plain_split; auto. eapply Hlen; eauto. }
   assert (Hacq : forall p, In p (m0 :: rest) -> acq_time8 p = acq_time8 m0).
   { intros p Hp. rewrite <- Hs in Hp. destruct (Hparts p Hp) as [ii ->].
     rewrite Hm0. now rewrite !part_acq. }
-  split.
+  split; [|split].
   - intros H3 H4.
     destruct (Z.eq_dec (kind f) 1) as [E1|E1];
       [|destruct (Z.eq_dec (kind f) 2) as [E2|E2]].
@@ -174,8 +189,12 @@ Proof.
     + assert (Hkr : 0 <= kind f < 10) by (unfold kind; lia).
       rewrite Hpl by lia. now f_equal.
   - intros E4. rewrite (Hix E4). f_equal. unfold spec_index.
-    rewrite Hplain. f_equal. f_equal.
-    specialize (Hlen f c El). lia.
+    now rewrite Hplain.
+  - intros E3.
+    destruct (join_index_online_column _ _ f Hj Hfj E3) as [m1 [r1 [Hs1 Hido]]].
+    rewrite Hsorted, Hs in Hs1. injection Hs1 as <- <-.
+    rewrite Hido. f_equal. unfold spec_ido. rewrite <- Hs.
+    unfold parts. f_equal. apply cols_of_parts; auto. eapply Hlen; eauto.
 Qed.
 
 (* ---- non-vacuity ------------------------------------------------------- *)
@@ -186,7 +205,7 @@ Definition m_ex : meas :=
 
 Example join_of_split_ex :
   wf_meas m_ex
-  /\ enc_join (join_fixed (split_meas m_ex 5 2))
+  /\ enc_join (join_fixed (split_meas m_ex 5 2 false false))
      = [0; 3; 0; 1; 2; 4; 10; 82; 104; 171;
         10; 5; 7; 8; 9; 10; 11; 82; 5; 1; 3; 4; 6; 9;
         104; 5; 1; 2; 3; 4; 5; 171; 5; 2; 4; 5; 9; 12;
@@ -194,3 +213,10 @@ Example join_of_split_ex :
         10; 50; 48; 50; 52; 45; 48; 51; 45; 48; 53;
         11; 49; 50; 58; 48; 48; 58; 48; 48; 46; 53; 48; 0; 1; 5].
 Proof. split; [apply wf_measb_sound|]; vm_compute; reflexivity. Qed.
+
+(* first and last event skipped: 5 events, parts [1] [2;3] (the last part
+   would be empty: the real split fails there, finding C09-split-empty-part) *)
+Example join_of_split_skip_ex :
+  exists j, join_fixed (split_meas m_ex 5 2 true true) = Ok j
+            /\ lookup_col 10 (j_cols j) = Some [8; 9; 10].
+Proof. eexists. split; vm_compute; reflexivity. Qed.
